@@ -2,6 +2,7 @@ import SeqIoModel.Proofs.FastaStreamGrowth
 import SeqIoModel.Proofs.FastqGrowth
 import SeqIoModel.Proofs.Alloc
 import SeqIoModel.Proofs.AllocFasta
+import SeqIoModel.Proofs.AllocFastq
 /-!
 # C18 – steady-state reading allocates nothing and keeps the buffer size
 
@@ -106,6 +107,14 @@ theorem seq_pos_only_grows_within_a_call (r : Reader) (fuel : Nat) :
     ((r.state = .incomplete ∨ r.state = .positioned) → r.bp.seqPos.length ≤ (next fuel r).1.bp.seqPos.length) ∧
     (r.state = .finished → (next fuel r).1 = r) :=
   Alloc.Fa.next_seqPos_after_clear fuel r
+
+/-- FASTQ: inside a set read `buf_positions` only grows, one `push` per stored record, unless the call ends in an
+error (then it is cleared and the ghost step gives up exactness) – the justification of `Alloc.Fq.setStep` -/
+theorem fastq_positions_only_grow_within_a_call (f fuel : Nat) (n : Option Nat) (isNew : Bool) (r : Fastq.Reader)
+    (rs : Fastq.RecordSet) :
+    (∃ e, (Fastq.setLoop f fuel n isNew r rs).2.2 = .err e) ∨
+      rs.positions <+: (Fastq.setLoop f fuel n isNew r rs).2.1.positions :=
+  Alloc.Fq.setLoop_positions_prefix f fuel n isNew r rs
 
 /-- a record set never loses position slots (they are overwritten in place or appended) -/
 theorem record_set_keeps_its_slots (fuel : Nat) (r : Reader) (rs : RecordSet) (n : Option Nat) :
